@@ -47,6 +47,17 @@ const (
 	c05KeyRaceSticky = "race-rr-stickybalance-len-vs-update"
 )
 
+// after a first hang has been established in this process (only shrinking
+// re-runs follow), a shorter window keeps the run bounded.
+var c05HangSeen atomic.Bool
+
+func c05Window() time.Duration {
+	if c05HangSeen.Load() {
+		return 3 * time.Second
+	}
+	return c05HangWindow
+}
+
 var c05Algors = []int{bal_slb.WrrSimple, bal_slb.WrrSmooth, bal_slb.WrrSticky, bal_slb.WlcSimple, bal_slb.WlcSmooth, 9}
 
 func c05AlgorName(a int) string {
@@ -421,6 +432,7 @@ func c05Watched(n int, window time.Duration, step func(i int) *c05Failure) (fail
 		case <-tm.C:
 			c := cur.Load()
 			if c == last {
+				c05HangSeen.Store(true)
 				return nil, int(c)
 			}
 			last = c
@@ -807,7 +819,7 @@ func c05Concurrent(progs [][]func() *c05Failure) (fail *c05Failure, hung bool) {
 	close(start)
 	last := int64(-1)
 	for {
-		tm := time.NewTimer(c05HangWindow)
+		tm := time.NewTimer(c05Window())
 		select {
 		case <-done:
 			tm.Stop()
@@ -815,6 +827,7 @@ func c05Concurrent(progs [][]func() *c05Failure) (fail *c05Failure, hung bool) {
 		case <-tm.C:
 			c := progress.Load()
 			if c == last {
+				c05HangSeen.Store(true)
 				return nil, true
 			}
 			last = c
@@ -1046,7 +1059,7 @@ func c05CaseRRSeq(rt *rapid.T, rec *ev.Rec, env *c05Env) {
 
 	st := &c05RRState{rec: rec, brr: bal_slb.NewBalanceRR("s0"), sawNeg: c05HasNeg(init), init: init, initLoaded: loaded, prog: ops}
 	st.brr.Init(loaded)
-	fail, hungAt := c05Watched(len(ops), c05HangWindow, func(i int) *c05Failure { st.pos = i; return st.step(&ops[i]) })
+	fail, hungAt := c05Watched(len(ops), c05Window(), func(i int) *c05Failure { st.pos = i; return st.step(&ops[i]) })
 	if hungAt >= 0 {
 		st.mu.Lock()
 		algor, sh := st.curAlgor, st.curShape
@@ -1068,27 +1081,43 @@ func c05CaseRRSeq(rt *rapid.T, rec *ev.Rec, env *c05Env) {
 	}
 }
 
-func c05InitTable(rt *rapid.T, rec *ev.Rec, env *c05Env, label string) (gslbConf, tableConf, bool) {
+// c05InitTable draws an initial pair accepted by the loaders and returns the
+// steps that apply it (reload from the empty table + server-data-conf push) and
+// that empty the table again; both run under the watchdog like every other op.
+func c05InitTable(rt *rapid.T, rec *ev.Rec, env *c05Env, label string) (g gslbConf, t tableConf, initStep, finalStep func() *c05Failure, ok bool) {
 	for try := 0; try < 4; try++ {
-		g, t := c05GenPair(rt, fmt.Sprintf("%s%d", label, try), env.ports)
+		g, t = c05GenPair(rt, fmt.Sprintf("%s%d", label, try), env.ports)
 		gl, err1 := loadGslb(g, "0")
 		tl, err2 := loadTable(t, "0")
 		if err1 != nil || err2 != nil {
 			rec.Class("loader-rejected-initial")
 			continue
 		}
-		ev.Try(func() { env.tbl.BalTableReload(gl, tl) })
-		env.curCT.Store(env.basic0)
-		env.tbl.SetGslbBasic(env.basic0)
-		env.tbl.SetSlowStart(env.basic0)
-		return g, t, true
+		initStep = func() *c05Failure {
+			if p := ev.Try(func() {
+				env.tbl.BalTableReload(gl, tl)
+				env.curCT.Store(env.basic0)
+				env.tbl.SetGslbBasic(env.basic0)
+				env.tbl.SetSlowStart(env.basic0)
+			}); p != nil {
+				return &c05Failure{Key: "panic-table-reload", Msg: fmt.Sprintf("initial reload panicked: %v", p)}
+			}
+			return nil
+		}
+		finalStep = func() *c05Failure {
+			if err := env.emptyReload(); err != nil && strings.HasPrefix(err.Error(), "panic") {
+				return &c05Failure{Key: "panic-table-reload", Msg: "final reload to the empty configuration: " + err.Error()}
+			}
+			return nil
+		}
+		return g, t, initStep, finalStep, true
 	}
-	return nil, nil, false
+	return nil, nil, nil, nil, false
 }
 
 func c05CaseTblSeq(rt *rapid.T, rec *ev.Rec, env *c05Env, poisoned *bool) {
 	env.hcOn.Store(false)
-	g, tc, ok := c05InitTable(rt, rec, env, "init")
+	g, tc, initStep, finalStep, ok := c05InitTable(rt, rec, env, "init")
 	if !ok {
 		rec.Excluded("loader-rejected-initial")
 		return
@@ -1109,19 +1138,31 @@ func c05CaseTblSeq(rt *rapid.T, rec *ev.Rec, env *c05Env, poisoned *bool) {
 	}
 	rec.Case(string(fpb), nt, classes...)
 	rec.Sample(w)
-	fail, hungAt := c05Watched(len(ops), c05HangWindow, func(i int) *c05Failure { return env.tblStep(&ops[i], true) })
+	name := func(i int) string {
+		switch {
+		case i == 0:
+			return "initial-reload"
+		case i == len(ops)+1:
+			return "final-empty-reload"
+		}
+		return ops[i-1].K
+	}
+	fail, hungAt := c05Watched(len(ops)+2, c05Window(), func(i int) *c05Failure {
+		switch {
+		case i == 0:
+			return initStep()
+		case i == len(ops)+1:
+			return finalStep()
+		}
+		return env.tblStep(&ops[i-1], true)
+	})
 	if hungAt >= 0 {
 		*poisoned = true
-		c05Report(rt, rec, &c05Failure{Key: "hang-table-" + ops[hungAt].K, Hang: true, Msg: fmt.Sprintf("table op %d (%s) made no progress for %v", hungAt, ops[hungAt].K, c05HangWindow)}, w)
+		c05Report(rt, rec, &c05Failure{Key: "hang-table-" + name(hungAt), Hang: true, Msg: fmt.Sprintf("table step %d (%s) made no progress for %v (deadlock or livelock)", hungAt, name(hungAt), c05HangWindow)}, w)
 		return
 	}
 	if !c05Report(rt, rec, fail, w) {
 		*poisoned = true
-		return
-	}
-	if err := env.emptyReload(); err != nil && strings.HasPrefix(err.Error(), "panic") {
-		*poisoned = true
-		c05Report(rt, rec, &c05Failure{Key: "panic-table-reload", Msg: "final reload to the empty configuration: " + err.Error()}, w)
 	}
 }
 
@@ -1273,7 +1314,7 @@ func (st *c05RRState) concStep(op *c05RROp) *c05Failure {
 func c05CaseTblConc(rt *rapid.T, rec *ev.Rec, env *c05Env, poisoned *bool) {
 	hc := rapid.IntRange(0, 3).Draw(rt, "healthcheck") > 0
 	env.hcOn.Store(hc)
-	g, tc, ok := c05InitTable(rt, rec, env, "init")
+	g, tc, initStep, finalStep, ok := c05InitTable(rt, rec, env, "init")
 	if !ok {
 		rec.Excluded("loader-rejected-initial")
 		return
@@ -1317,6 +1358,14 @@ func c05CaseTblConc(rt *rapid.T, rec *ev.Rec, env *c05Env, poisoned *bool) {
 		}
 		fns = append(fns, l)
 	}
+	if f, h := c05Watched(1, c05Window(), func(int) *c05Failure { return initStep() }); h >= 0 || f != nil {
+		*poisoned = true
+		if h >= 0 {
+			f = &c05Failure{Key: "hang-table-initial-reload", Hang: true, Msg: "initial reload made no progress (deadlock or livelock)"}
+		}
+		c05Report(rt, rec, f, w)
+		return
+	}
 	fail, hung := c05Concurrent(fns)
 	if hung {
 		*poisoned = true
@@ -1327,9 +1376,12 @@ func c05CaseTblConc(rt *rapid.T, rec *ev.Rec, env *c05Env, poisoned *bool) {
 		*poisoned = true
 		return
 	}
-	if err := env.emptyReload(); err != nil && strings.HasPrefix(err.Error(), "panic") {
+	if f, h := c05Watched(1, c05Window(), func(int) *c05Failure { return finalStep() }); h >= 0 || f != nil {
 		*poisoned = true
-		c05Report(rt, rec, &c05Failure{Key: "panic-table-reload", Msg: "final reload to the empty configuration: " + err.Error()}, w)
+		if h >= 0 {
+			f = &c05Failure{Key: "hang-table-final-empty-reload", Hang: true, Msg: "final reload to the empty configuration made no progress (deadlock or livelock)"}
+		}
+		c05Report(rt, rec, f, w)
 		return
 	}
 	env.hcOn.Store(false)
